@@ -13,12 +13,20 @@ META = {
             "convex polygons (< hemisphere, general position: no vertex within 1e-3 rad of the other's boundary) that overlap partially, are "
             "disjoint, or nested: commutativity in area, <= min, inclusion-exclusion, an independent hemisphere-clipping oracle for the intersection "
             "area, None for disjoint, the inner polygon for nested; radius 1 and 6371. dispatch: the no-crossing decision table of _bool_oper vs the "
-            "model. Non-trivial: non-convex or pole/antimeridian placement, or a partially overlapping pair. Distinct = distinct vertices.",
+            "model. Non-trivial: non-convex or pole/antimeridian placement, or a partially overlapping pair. Distinct = distinct vertices. "
+            "setops.small: the same laws for pairs whose common part is tiny: polygons 2e-5..6e-4 rad across (overlapping, nested, disjoint) and big "
+            "polygons sharing a sliver 4e-5..2e-4 rad deep; areas by a planar (gnomonic) oracle, tolerances 1e-6 x smaller area + 5e-15 / size; radius "
+            "1, 0.5, 6371. area.sequence: one case = (polygon, radius, calls before invert()): area / invert / area on one object vs inverse(), a "
+            "freshly built reversed polygon and the independent angle sum; radius 0.1..7000.",
     "assumptions": ["trigonometry is not modelled: the Lean model is the combinatorial skeleton (cyclic triples, (sum - (n-2) pi) r^2, dispatch table) over an "
                     "arbitrary field with the angle function as a parameter; the laws that need geometry (rotation invariance, angle additivity at a "
                     "diagonal, b-p-a = 2 pi - a-p-b) are hypotheses of the theorems and are checked numerically on the real code",
                     "tolerances: 1e-9 relative on areas for the area laws (1e-7 for polygons smaller than 1e-3 rad), 1e-7 for set operations",
-                    "general position is enforced by the generator (margins of 1e-3 rad); degenerate pairs are outside the property's quantifier"],
+                    "general position is enforced by the generator (margins of 1e-3 rad); degenerate pairs are outside the property's quantifier",
+                    "setops.small: the library compares points with np.allclose on lon/lat (SCoordinate.__eq__, 1e-8 + 1e-5 |value| rad, i.e. up to 3.5e-5 rad): "
+                    "pairs with two distinct vertices / crossing points, a vertex and the other polygon's boundary, or a vertex and the great circle of the "
+                    "other polygon's first edge closer than twice that resolution are not generated (below it the unchanged library returns wrong polygons "
+                    "or does not terminate); area() carries an absolute error of a few 1e-16 / edge length, polygons below 2e-5 rad across are not generated"],
 }
 
 F = Fraction
@@ -422,6 +430,358 @@ def suite_far_disjoint(ctx):
                      tags={"relation": "far-disjoint", "cause": "law"}, size=len(VA) + len(VB))
 
 
+# -----------------------------------------------------------------------------------------------------------------------
+# small polygons and thin overlaps: the laws do not depend on the size of the polygons
+# -----------------------------------------------------------------------------------------------------------------------
+
+def gnomonic(V, c):
+    """central projection onto the plane tangent at c: great-circle arcs become straight segments"""
+    ref = np.array([0.0, 0.0, 1.0]) if abs(c[2]) < 0.9 else np.array([1.0, 0.0, 0.0])
+    e1 = np.cross(ref, c)
+    e1 /= np.linalg.norm(e1)
+    e2 = np.cross(c, e1)
+    d = V @ c
+    return np.stack([(V @ e1) / d, (V @ e2) / d], -1)
+
+
+def area_planar(V):
+    """area of a SMALL clockwise polygon (< 1e-3 rad across): shoelace formula in the gnomonic plane at its centroid (relative error
+    of the order of size^2; unlike an angle sum it loses nothing to cancellation when the polygon is tiny)"""
+    c = V.mean(axis=0)
+    c /= np.linalg.norm(c)
+    P = gnomonic(V, c)
+    x, y = P[:, 0], P[:, 1]
+    return -0.5 * float(np.sum(x * np.roll(y, -1) - np.roll(x, -1) * y))
+
+
+def clip_vertices(VA, VB):
+    """vertices of the intersection of two convex clockwise polygons (A clipped by the half-spaces of B's edges), or None"""
+    poly = [v for v in VA]
+    n = len(VB)
+    for i in range(n):
+        p, q = VB[i], VB[(i + 1) % n]
+        nrm = np.cross(q, p)
+        nrm /= np.linalg.norm(nrm)
+        new = []
+        for k in range(len(poly)):
+            cur, nxt = poly[k], poly[(k + 1) % len(poly)]
+            dc, dn = np.dot(nrm, cur), np.dot(nrm, nxt)
+            if dc >= 0:
+                new.append(cur)
+            if (dc >= 0) != (dn >= 0):
+                x = np.cross(np.cross(cur, nxt), nrm)
+                x /= np.linalg.norm(x)
+                if np.dot(x, cur + nxt) < 0:
+                    x = -x
+                new.append(x)
+        poly = new
+        if len(poly) < 3:
+            return None
+    return np.array(poly)
+
+
+def point_resolution(*Vs):
+    """The library compares points with np.allclose on (lon, lat) in radians (SCoordinate.__eq__: |d| <= 1e-8 + 1e-5 |value|): two
+    points closer than this (angular distance) can be taken for one and the same.  'General position' has to mean: further apart."""
+    ll = np.vstack([v2ll(V) for V in Vs])
+    t_lat = 1e-8 + 1e-5 * float(np.abs(ll[:, 1]).max())
+    t_lon = (1e-8 + 1e-5 * float(np.abs(ll[:, 0]).max())) * math.cos(float(np.abs(ll[:, 1]).min()))
+    return math.hypot(t_lat, t_lon)
+
+
+def min_separation(P):
+    d = np.linalg.norm(P[:, None, :] - P[None, :, :], axis=-1)
+    d[np.diag_indices(len(P))] = 9.0
+    return float(d.min())
+
+
+SMALL_PLACES = PLACES + [("greenwich-equator", (0.02, 0.01)), ("greenwich-mid-lat", (-0.03, 0.7))]
+
+
+def _move(rng, c1, shift):
+    Rm = rot(rng)
+    axis = np.cross(c1, Rm[0])
+    axis /= np.linalg.norm(axis)
+    c2 = c1 * math.cos(shift) + np.cross(axis, c1) * math.sin(shift) + axis * np.dot(axis, c1) * (1 - math.cos(shift))
+    ll2 = v2ll(c2)
+    return float(ll2[0]), float(ll2[1])
+
+
+def _small_pair(rng, relation):
+    """two convex polygons 2e-5 .. 6e-4 rad across (log-uniform; not smaller than what the library's point comparison can resolve there)"""
+    place, centre = rng.choice(SMALL_PLACES)
+    res = point_resolution(make_polygon(rng, "convex", 4, 3e-4, centre))
+    lo = min(3e-4, max(1e-5, 6 * res))
+    s1 = math.exp(rng.uniform(math.log(lo), math.log(3e-4)))
+    n1, n2 = rng.randint(3, 8), rng.randint(3, 8)
+    A = make_polygon(rng, "convex", n1, s1, centre)
+    if relation == "overlap":
+        s2 = min(3e-4, s1 * rng.uniform(0.6, 1.4))
+        shift = rng.uniform(0.4, 1.3) * max(s1, s2)
+    elif relation == "disjoint":
+        s2 = min(3e-4, s1 * rng.uniform(0.5, 1.2))
+        shift = (s1 + s2) * rng.uniform(1.2, 2.0)
+    else:
+        s2 = s1 * rng.uniform(0.2, 0.45)
+        shift = s1 * rng.uniform(0.0, 0.2)
+    B = make_polygon(rng, "convex", n2, s2, _move(rng, ll2v(*centre), shift))
+    return place, A, B, min(s1, s2)
+
+
+def _sliver_pair(rng):
+    """two big convex polygons that share only a thin sliver: one corner of B reaches 4e-5 .. 2e-4 rad across an edge of A"""
+    place, centre = rng.choice(PLACES)
+    c = ll2v(*centre)
+    A = make_polygon(rng, "convex", rng.randint(4, 8), rng.choice([0.1, 0.3, 0.6]), centre)
+    i = rng.randrange(len(A))
+    P, Q = A[i], A[(i + 1) % len(A)]
+    f = rng.uniform(0.3, 0.7)
+    M = P * (1 - f) + Q * f
+    M /= np.linalg.norm(M)
+    n_in = np.cross(Q, P)
+    n_in /= np.linalg.norm(n_in)                     # the inside of a clockwise polygon is where n_in . x > 0
+    depth = math.exp(rng.uniform(math.log(4e-5), math.log(2e-4)))
+    T = M * math.cos(depth) + n_in * math.sin(depth)
+    B0 = make_polygon(rng, "convex", rng.randint(3, 7), rng.choice([0.05, 0.2, 0.4]), centre)
+    # rigid motion that puts B0's first vertex on T, with B0's centre on the outer side of A's edge
+    b = B0[0]
+    t1 = c - np.dot(c, b) * b
+    t1 /= np.linalg.norm(t1)
+    out = -n_in + np.dot(n_in, T) * T
+    out /= np.linalg.norm(out)
+    phi = rng.uniform(-0.3, 0.3)
+    out = out * math.cos(phi) + np.cross(T, out) * math.sin(phi)
+    R = np.outer(T, b) + np.outer(out, t1) + np.outer(np.cross(T, out), np.cross(b, t1))
+    B = B0 @ R.T
+    B = B / np.linalg.norm(B, axis=1, keepdims=True)
+    B = np.roll(B, rng.randrange(len(B)), axis=0)
+    return place, A, B, depth
+
+
+def _first_edge_circle_distance(VX, VY):
+    """smallest angular distance of a vertex of Y to the great circle through the first edge of X"""
+    nrm = np.cross(VX[0], VX[1])
+    nrm /= np.linalg.norm(nrm)
+    return float(np.abs(np.arcsin(np.clip(VY @ nrm, -1, 1))).min())
+
+
+class _Timeout(Exception):
+    pass
+
+
+def _with_alarm(seconds, fn):
+    """run fn(); a set operation that does not come back is a failure, not a reason to hang the check"""
+    import signal
+    import threading
+    if threading.current_thread() is not threading.main_thread():
+        return fn()
+
+    def handler(signum, frame):
+        raise _Timeout()
+    old = signal.signal(signal.SIGALRM, handler)
+    signal.setitimer(signal.ITIMER_REAL, seconds)
+    try:
+        return fn()
+    finally:
+        signal.setitimer(signal.ITIMER_REAL, 0)
+        signal.signal(signal.SIGALRM, old)
+
+
+def suite_small_setops(ctx):
+    """the set-operation laws for pairs whose common part is tiny (far below 1e-7 sr on the unit sphere): polygons the size of a pixel
+    footprint, and big polygons that overlap in a thin sliver.  Tolerances follow the size of the polygons."""
+    rng = ctx.rng
+    n_cases = 45 if ctx.quick else 400
+    done = attempts = 0
+    while done < n_cases and attempts < n_cases * 40:
+        attempts += 1
+        family = rng.choice(["small", "small", "sliver"])
+        if family == "small":
+            relation = rng.choice(["overlap", "overlap", "nested", "disjoint"])
+            place, VA, VB, smin = _small_pair(rng, relation)
+        else:
+            place, VA, VB, smin = _sliver_pair(rng)
+        if not (is_convex_cw(VA) and is_convex_cw(VB)):
+            continue
+        res = point_resolution(VA, VB)
+        margin = max(1e-6, 2 * res)                     # the property's general position, and what the library can tell apart
+        if min(min_boundary_distance(VA, VB), min_boundary_distance(VB, VA)) < margin:
+            continue
+        VI = clip_vertices(VA, VB)
+        a_in_b = [inside_convex(a, VB) for a in VA]
+        b_in_a = [inside_convex(b, VA) for b in VB]
+        nodes = [v for v in VA] + [v for v in VB]
+        for v in (VI if VI is not None else []):
+            if not any(np.linalg.norm(v - u) < 1e-13 for u in nodes):
+                nodes.append(v)
+        if min_separation(np.array(nodes)) < 2 * res:
+            continue
+        # ... and no vertex within that resolution of the great circle through the other polygon's first edge: the library decides
+        # containment by looking along that circle, and a crossing it cannot tell from an edge's end point is dropped
+        if min(_first_edge_circle_distance(VA, VB), _first_edge_circle_distance(VB, VA)) < 2 * res:
+            ctx.count("setops.small.skipped.vertex_on_first_edge_circle")
+            continue
+        small = family == "small"
+        aA = area_planar(VA) if small else area_ref(VA)
+        aB = area_planar(VB) if small else area_ref(VB)
+        ref_inter = 0.0 if VI is None else area_planar(VI)
+        true_rel = ("nested-b-in-a" if all(b_in_a) and not any(a_in_b) and abs(ref_inter - aB) <= 1e-6 * aB else
+                    "nested-a-in-b" if all(a_in_b) and not any(b_in_a) and abs(ref_inter - aA) <= 1e-6 * aA else
+                    "disjoint" if VI is None and not any(a_in_b) and not any(b_in_a) else
+                    "overlap" if VI is not None and ref_inter > 1e-3 * min(aA, aB) * (1 if small else 0) + 1e-12 else "unclear")
+        if true_rel == "unclear" or (family == "sliver" and (true_rel != "overlap" or ref_inter > 3e-7)):
+            continue
+        done += 1
+        radius = rng.choice([1, 1, 1, 0.5, 6371.0])
+        r2 = radius ** 2
+        inp = {"family": family, "place": place, "relation": true_rel, "radius": radius, "smallest_polygon_radius_rad" if small else "sliver_depth_rad": smin,
+               "common_area_unit_sphere": ref_inter, "A_lonlat_rad": v2ll(VA).tolist(), "B_lonlat_rad": v2ll(VB).tolist()}
+        ctx.case("setops.small", (v2ll(VA).tobytes(), v2ll(VB).tobytes(), radius), nontrivial=true_rel != "disjoint",
+                 sample={"family": family, "place": place, "relation": true_rel, "common_area_unit_sphere": ref_inter})
+        ctx.count(f"setops.small.{family}.{true_rel}")
+        ctx.count("setops.small.common_area." + ("below_1e-7" if 0 < ref_inter * r2 < 1e-7 else "zero" if ref_inter == 0 else "above_1e-7"))
+        res_, polys, crashed = {}, {}, None
+        for name, fn in (("A&B", lambda a, b: a.intersection(b)), ("B&A", lambda a, b: b.intersection(a)), ("A|B", lambda a, b: a.union(b)), ("B|A", lambda a, b: b.union(a))):
+            try:
+                with warnings.catch_warnings(), np.errstate(all="ignore"):
+                    warnings.simplefilter("ignore")
+                    r = _with_alarm(20.0, lambda: fn(_sph(VA, radius), _sph(VB, radius)))
+                    polys[name] = r
+                    res_[name] = None if r is None else float(r.area())
+            except _Timeout:
+                crashed = (name, "did not return within 20 s")
+                break
+            except Exception as e:  # noqa
+                crashed = (name, f"raised {type(e).__name__}: {e}")
+                break
+        tags0 = {"relation": true_rel, "family": family}
+        if crashed:
+            ctx.fail("spherical.SphPolygon._bool_oper", f"{crashed[0]} of two convex polygons in general position ({family}, {true_rel}) {crashed[1]}", inp, None,
+                     tags={**tags0, "cause": "exception"}, size=len(VA) + len(VB))
+            continue
+        if true_rel == "disjoint":
+            if res_["A&B"] is not None or res_["B&A"] is not None:
+                ctx.fail("spherical.SphPolygon.intersection", f"disjoint small polygons have an intersection of area {res_['A&B']} / {res_['B&A']}", inp, res_,
+                         tags={**tags0, "cause": "disjoint-intersection"}, size=len(VA) + len(VB))
+            continue
+        # area() of a polygon with edges of length s carries an absolute error of a few 1e-16 / s (measured: < 4e-16 / s): allow 5e-15 / s
+        with warnings.catch_warnings(), np.errstate(all="ignore"):
+            warnings.simplefilter("ignore")
+            lA, lB = float(_sph(VA, radius).area()), float(_sph(VB, radius).area())
+        tol = (1e-6 * min(aA, aB) + 5e-15 / smin) * r2 if small else (1e-3 * ref_inter + 1e-12) * r2
+        exp_i, exp_u = ref_inter * r2, (aA + aB - ref_inter) * r2
+        bad = []
+        if res_["A&B"] is None or res_["B&A"] is None:
+            bad.append(f"no intersection returned (A&B: {res_['A&B']}, B&A: {res_['B&A']}) although the polygons share an area of {exp_i:.6g}")
+        else:
+            if abs(res_["A&B"] - res_["B&A"]) > tol:
+                bad.append(f"intersection not commutative in area: {res_['A&B']!r} vs {res_['B&A']!r}")
+            if res_["A&B"] > min(lA, lB) + tol:
+                bad.append(f"area(A & B) = {res_['A&B']!r} exceeds min(area A, area B) = {min(lA, lB)!r}")
+            if abs(res_["A&B"] - exp_i) > tol:
+                bad.append(f"area(A & B) = {res_['A&B']!r}, independent clipping gives {exp_i!r}")
+        if res_["A|B"] is None or res_["B|A"] is None:
+            bad.append(f"no union returned ({res_['A|B']}, {res_['B|A']})")
+        else:
+            if abs(res_["A|B"] - res_["B|A"]) > tol:
+                bad.append(f"union not commutative in area: {res_['A|B']!r} vs {res_['B|A']!r}")
+            i_lib = res_["A&B"] if res_["A&B"] is not None else 0.0
+            if abs(res_["A|B"] - (lA + lB - i_lib)) > tol:
+                bad.append(f"area(A | B) = {res_['A|B']!r} but area A + area B - area(A & B) = {lA + lB - i_lib!r}"
+                           + (" (no intersection returned: counted as 0)" if res_["A&B"] is None else ""))
+            if abs(res_["A|B"] - exp_u) > tol + 1e-9 * exp_u:
+                bad.append(f"area(A | B) = {res_['A|B']!r}, expected {exp_u!r}")
+        if true_rel.startswith("nested"):
+            Vin, l_in = (VB, lB) if true_rel == "nested-b-in-a" else (VA, lA)
+            for name in ("A&B", "B&A"):
+                r = polys[name]
+                if r is None:
+                    continue
+                if abs(res_[name] - l_in) > tol:
+                    bad.append(f"contained polygon is not its own intersection ({name}): area {res_[name]!r} vs {l_in!r}")
+                else:
+                    got, want = np.asarray(r.vertices, float), v2ll(Vin)
+                    dlon = np.abs(got[:, None, 0] - want[None, :, 0]) % (2 * math.pi)
+                    same = (np.minimum(dlon, 2 * math.pi - dlon) < 1e-12) & (np.abs(got[:, None, 1] - want[None, :, 1]) < 1e-12)
+                    if got.shape != want.shape or not (same.any(axis=1).all() and same.any(axis=0).all()):
+                        bad.append(f"{name} of a contained polygon does not have the contained polygon's vertices")
+        if bad:
+            ctx.fail("spherical.SphPolygon._bool_oper" if res_["A&B"] is not None and res_["B&A"] is not None else "spherical.SphPolygon.intersection",
+                     f"{family} pair, {true_rel}, at {place} (radius {radius}, common area {exp_i:.4g}): " + "; ".join(bad[:3]), inp, res_,
+                     tags={**tags0, "cause": "law"}, size=len(VA) + len(VB))
+
+
+def suite_area_sequences(ctx):
+    """area laws along call sequences on ONE polygon object, on spheres of any radius: area(); invert(); area() - the in-place inverse
+    must be the complement on that sphere, equal to inverse() and to a polygon freshly built from the reversed vertices; earlier
+    requests (area, set operations, invert twice) do not change what area() returns"""
+    from pyresample.spherical import SphPolygon
+    rng = ctx.rng
+    n_cases = 60 if ctx.quick else 500
+    for it in range(n_cases):
+        place, centre = rng.choice(PLACES)
+        kind = rng.choice(["convex", "star"])
+        n = rng.randint(3, 12)
+        size = rng.choice([0.02, 0.2, 0.7, 1.2])
+        V = make_polygon(rng, kind, n, size, centre)
+        ll = v2ll(V)
+        radius = rng.choice([1, 0.5, 2.0, 100.0, 6371.0, rng.uniform(0.1, 7000.0)])
+        r2 = radius ** 2
+        sphere = 4 * math.pi * r2
+        tol = 1e-9 * sphere
+        ref = area_ref(V, radius)
+        history = rng.choice(["area", "area", "area-twice", "set-operation", "invert-twice", "none"])
+        inp = {"place": place, "kind": kind, "n": n, "size": size, "radius": radius, "calls_before_invert": history, "vertices_lonlat_rad": ll.tolist()}
+        ctx.case("area.sequence", (ll.tobytes(), radius, history), nontrivial=radius != 1 and history != "none",
+                 sample={"place": place, "kind": kind, "n": n, "radius": radius, "history": history})
+        ctx.count(f"area.sequence.history.{history}")
+        ctx.count("area.sequence.radius." + ("unit" if radius == 1 else "other"))
+        try:
+            with warnings.catch_warnings(), np.errstate(all="ignore"):
+                warnings.simplefilter("ignore")
+                P = SphPolygon(ll.copy(), radius=radius)
+                a1 = None
+                if history in ("area", "area-twice"):
+                    a1 = float(P.area())
+                    if history == "area-twice":
+                        a1 = float(P.area())
+                elif history == "set-operation":
+                    # containment tests fall back on area() internally
+                    other = make_polygon(rng, "convex", 5, 0.1, _move(rng, ll2v(*centre), rng.uniform(1.8, 2.6)))
+                    Q = SphPolygon(v2ll(other).copy(), radius=radius)
+                    P.intersection(Q), Q.intersection(P), P.union(Q)
+                elif history == "invert-twice":
+                    a1 = float(P.area())
+                    P.invert()
+                    P.area()
+                    P.invert()
+                P.invert()
+                a2 = float(P.area())
+                a_inverse = float(SphPolygon(ll.copy(), radius=radius).inverse().area())
+                a_fresh = float(SphPolygon(ll[::-1].copy(), radius=radius).area())
+                P.invert()
+                a3 = float(P.area())
+        except Exception as e:  # noqa
+            ctx.fail("spherical.SphPolygon.invert", f"area / invert sequence raised {type(e).__name__}: {e}", inp, None, tags={"cause": "exception"}, size=n)
+            continue
+        obs = {"area_before": a1, "area_after_invert": a2, "inverse()": a_inverse, "fresh_reversed": a_fresh, "after_second_invert": a3, "sphere": sphere,
+               "independent_area": ref}
+        bad = []
+        if a1 is not None and abs(a1 - ref) > tol:
+            bad.append(f"area() = {a1!r}, angle sum of the interior angles gives {ref!r}")
+        if abs(a2 - (sphere - ref)) > tol:
+            bad.append(f"area(P) + area(P after invert()) = {ref + a2!r} (area after invert() {a2!r}), the sphere of radius {radius} has {sphere!r}")
+        if abs(a2 - a_inverse) > tol:
+            bad.append(f"invert() and inverse() disagree: {a2!r} vs {a_inverse!r}")
+        if abs(a2 - a_fresh) > tol:
+            bad.append(f"area after invert() {a2!r}, the same reversed vertices built afresh give {a_fresh!r}")
+        if abs(a3 - ref) > tol:
+            bad.append(f"invert() twice does not restore the area: {a3!r} vs {ref!r}")
+        if bad:
+            ctx.fail("spherical.SphPolygon.invert", f"{kind} polygon with {n} vertices at {place}, radius {radius}, after {history}: " + "; ".join(bad[:3]), inp, obs,
+                     tags={"cause": "invert-sequence", "history": history, "unit_radius": radius == 1}, size=n)
+
+
 def suite_dispatch(ctx):
     """the no-crossing branch of the real _bool_oper (edges that cross nothing, stubbed containment tests) vs the model's decision table"""
     from pyresample.spherical import SphPolygon
@@ -457,7 +817,7 @@ def suite_dispatch(ctx):
 
 def run(ctx):
     import traceback
-    for suite in (suite_area, suite_setops, suite_far_disjoint, suite_dispatch):
+    for suite in (suite_area, suite_setops, suite_far_disjoint, suite_dispatch, suite_small_setops, suite_area_sequences):
         try:
             suite(ctx)
         except Exception as e:  # noqa
